@@ -151,3 +151,46 @@ Fixpoint run_keep (ρ : list hval) (σ : store) (es : list hexpr) : store * list
       (σ2, r :: rs)
   end.
 
+(** ** Any interleaving: the Arc discipline under arbitrary schedules.
+    A configuration is the store together with the multiset of all handles in existence (the
+    context's and every thread's).  Threads act by cloning a handle they hold, dropping one,
+    allocating, or appending through one (Arc::make_mut then write).  [pinned] are the handles
+    the context holds for the whole run: they are never the acting handle.  The steps of all
+    threads arrive in ANY order (the list [ops]); the theorem quantifies over all of them. *)
+Record cfg := { st : store; hs : list nat }.
+
+Inductive op :=
+| OClone (l : nat)                 (* a holder of a handle to l clones it *)
+| ODrop (l : nat)                  (* a holder drops its handle to l *)
+| OAlloc (p : payload)             (* a fresh buffer *)
+| OAppend (l : nat) (p : payload). (* make_mut through a handle to l, then overwrite with p *)
+
+Definition cnt (l : nat) (h : list nat) : nat := count_occ Nat.eq_dec h l.
+
+Fixpoint remove1 (l : nat) (h : list nat) : list nat :=
+  match h with
+  | [] => []
+  | x :: h' => if Nat.eqb x l then h' else x :: remove1 l h'
+  end.
+
+(** a thread's own (non-pinned) handle to l exists *)
+Definition free_handle (pinned : list nat) (c : cfg) (l : nat) : bool := Nat.ltb (cnt l pinned) (cnt l (hs c)).
+
+Definition step (pinned : list nat) (c : cfg) (o : op) : option cfg :=
+  match o with
+  | OClone l => if Nat.ltb 0 (cnt l (hs c)) then Some {| st := inc (st c) l; hs := l :: hs c |} else None
+  | ODrop l => if free_handle pinned c l then Some {| st := dec (st c) l; hs := remove1 l (hs c) |} else None
+  | OAlloc p => let '(s', l') := alloc (st c) p in Some {| st := s'; hs := l' :: hs c |}
+  | OAppend l p =>
+      if free_handle pinned c l then
+        let '(s1, l') := make_mut (st c) l in
+        Some {| st := set_pl s1 l' p; hs := if Nat.eqb l' l then hs c else l' :: remove1 l (hs c) |}
+      else None
+  end.
+
+Fixpoint steps (pinned : list nat) (c : cfg) (ops : list op) : option cfg :=
+  match ops with
+  | [] => Some c
+  | o :: r => match step pinned c o with Some c' => steps pinned c' r | None => None end
+  end.
+
